@@ -9,6 +9,7 @@ import Sif.Generated.DispHooks
 import Sif.Generated.AccuReset
 import Sif.Generated.BlockShare
 import Sif.Generated.Migrations
+import Sif.Generated.MintSource
 /-
   C20 — Policy-driven issuance is bounded.  Property theorems only.
 
@@ -173,6 +174,20 @@ theorem cap_is_350M : Sif.Generated.DispConsts.maxMintAmount = capRowan := by de
 
 /-- every constant and prefix of types/keys.go was readable as a literal -/
 theorem dispconsts_readable : Sif.Generated.DispConsts.unreadable = [] := by decide
+
+/-- the BeginBlocker takes the amount it mints from the compiled-in constant `MintAmountPerBlock`
+    (or, in the last block, the remainder under the cap) and no consensus code of x/dispensation
+    looks at the chain id: the model's BeginBlocker has no chain-id input (regenerated fact; a
+    per-network amount, or any other source, changes it) -/
+theorem mint_amount_from_constant :
+    Sif.Generated.MintSource.beginBlockerFound = 1 ∧
+    Sif.Generated.MintSource.mintAmountAssigns =
+      [ ("sdk.NewIntFromString(types.MintAmountPerBlock)", []),
+        ("maxMintAmount.Sub(controller.TotalCounter.Amount)", ["k.IsLastBlock(ctx)"]) ] ∧
+    Sif.Generated.MintSource.chainIdRefs = [] := by decide
+
+/-- the per-block amount of the property text: 225 rowan (18 decimals) -/
+theorem perBlock_is_225 : Sif.Generated.DispConsts.mintAmountPerBlock = 225 * 10 ^ 18 := by decide
 
 /-- the per-block amount is positive and does not exceed the cap -/
 theorem perBlock_sane : 0 < Sif.Generated.DispConsts.mintAmountPerBlock ∧
